@@ -62,10 +62,11 @@ VARIABLES q,        \* messages queued in the source channel
           sched,    \* per destination: remaining schedule
           tos,      \* timeouts so far
           cl,       \* connection-loss failures so far
+          ghost,    \* requests the relay has given up on (ConnLost) that may still reach their destination: <<m, d>>
           \* history (the outside view, RelayAbs)
           acc, dfail, ifail, reqs, fins, unknown, ended
 
-ivars == <<q, att, sif, gone, work, ctr, dead, sched, tos, cl>>
+ivars == <<q, att, sif, gone, work, ctr, dead, sched, tos, cl, ghost>>
 hvars == <<acc, dfail, ifail, reqs, fins, unknown, ended>>
 vars  == <<ivars, hvars>>
 
@@ -82,7 +83,7 @@ Schedules == {f \in [Dests -> SeqsUpTo(Items, MaxSched)] :
 
 Init == /\ q = Msgs /\ att = [m \in Msgs |-> 0] /\ sif = [m \in Msgs |-> FALSE]
         /\ gone = [m \in Msgs |-> FALSE] /\ work = {} /\ ctr = 0 /\ dead = {}
-        /\ sched \in Schedules /\ tos = 0 /\ cl = 0
+        /\ sched \in Schedules /\ tos = 0 /\ cl = 0 /\ ghost = {}
         /\ acc = [m \in Msgs |-> {}] /\ dfail = [m \in Msgs |-> 0] /\ reqs = [m \in Msgs |-> 0]
         /\ fins = [m \in Msgs |-> 0] /\ ifail = 0 /\ unknown = 0 /\ ended = FALSE
 
@@ -106,19 +107,19 @@ Deliver(m) == /\ m \in q
               /\ att' = [att EXCEPT ![m] = @ + 1]
               /\ sif' = [sif EXCEPT ![m] = TRUE]
               /\ work' = work \cup {[m |-> m, a |-> att[m] + 1, st |-> "h", d |-> 0]}
-              /\ UNCHANGED <<gone, ctr, dead, sched, tos, cl, hvars>>
+              /\ UNCHANGED <<gone, ctr, dead, sched, tos, cl, ghost, hvars>>
 SrcTimeout(m) == /\ sif[m] /\ tos < MaxTimeouts
                  /\ sif' = [sif EXCEPT ![m] = FALSE] /\ q' = q \cup {m} /\ tos' = tos + 1
-                 /\ UNCHANGED <<att, gone, work, ctr, dead, sched, cl, hvars>>
+                 /\ UNCHANGED <<att, gone, work, ctr, dead, sched, cl, ghost, hvars>>
 
 (* go-nsq handlerLoop: shouldFailMessage *)
 GiveUp(w) == /\ w \in work /\ w.st = "h" /\ MaxAttempts > 0 /\ w.a > MaxAttempts
              /\ SendFin(w.m) /\ work' = work \ {w}
-             /\ UNCHANGED <<att, ctr, dead, sched, tos, cl, acc, dfail, ifail, unknown, ended>>
+             /\ UNCHANGED <<att, ctr, dead, sched, tos, cl, ghost, acc, dfail, ifail, unknown, ended>>
 (* filter / sample says no: HandleMessage returns nil -> auto FIN *)
 FilterDrop(w) == /\ w \in work /\ w.st = "h" /\ Filter
                  /\ SendFin(w.m) /\ work' = work \ {w}
-                 /\ UNCHANGED <<att, ctr, dead, sched, tos, cl, acc, dfail, ifail, unknown, ended>>
+                 /\ UNCHANGED <<att, ctr, dead, sched, tos, cl, ghost, acc, dfail, ifail, unknown, ended>>
 
 (* destination choice *)
 RRPick(c) == (c % N) + 1
@@ -146,7 +147,7 @@ CtrBound == 2 * N       \* the counter only matters modulo N
 SendTo(w, ch) == /\ w \in work /\ w.st = "h" /\ ch \in Choices
                  /\ work' = (work \ {w}) \cup {[w EXCEPT !.st = "s", !.d = ch[1]]}
                  /\ ctr' = ch[2] % CtrBound /\ dead' = ch[3]
-                 /\ UNCHANGED <<q, att, sif, gone, sched, tos, cl, hvars>>
+                 /\ UNCHANGED <<q, att, sif, gone, sched, tos, cl, ghost, hvars>>
 Send(w, ch) == NextItem(ch[1]) # "D" /\ SendTo(w, ch)      \* a destination that is down refuses the connection
 (* destination down: PublishAsync / connect returns an error (hostpool: Mark(err) at once); HandleMessage
    returns it and go-nsq's handlerLoop requeues (RespondReq) *)
@@ -156,7 +157,7 @@ SendFails(w, ch) == /\ w \in work /\ w.st = "h" /\ ch \in Choices
                     /\ ctr' = ch[2] % CtrBound
                     /\ dead' = IF Mode = "rr" THEN ch[3] ELSE ch[3] \cup {ch[1]}
                     /\ ifail' = ifail + 1
-                    /\ UNCHANGED <<q, att, sif, gone, tos, cl, acc, dfail, reqs, fins, unknown, ended>>
+                    /\ UNCHANGED <<q, att, sif, gone, tos, cl, ghost, acc, dfail, reqs, fins, unknown, ended>>
 
 (* the destination answers the outstanding request w with the next item of its schedule; a "D" met by a
    request that is already on its way (connection torn down under it) loses the request like "L" *)
@@ -168,7 +169,7 @@ Answer(w) == /\ w \in work /\ w.st = "s"
                 /\ IF Filter /\ it = "A" THEN unknown' = unknown + 1 ELSE UNCHANGED unknown   \* rewritten body
                 /\ IF it = "R" /\ ~Filter THEN dfail' = [dfail EXCEPT ![w.m] = @ + 1] ELSE UNCHANGED dfail
                 /\ IF it \in {"L", "D"} \/ (it = "R" /\ Filter) THEN ifail' = ifail + 1 ELSE UNCHANGED ifail
-             /\ UNCHANGED <<q, att, sif, gone, ctr, dead, tos, cl, reqs, fins, ended>>
+             /\ UNCHANGED <<q, att, sif, gone, ctr, dead, tos, cl, ghost, reqs, fins, ended>>
 
 (* the connection a request travels on dies under it (torn down by the answer to ANOTHER request: "L", "D",
    a refusal by closing; or the relay's own timeout): the request fails at the relay without the destination
@@ -176,17 +177,27 @@ Answer(w) == /\ w \in work /\ w.st = "s"
 ConnLost(w) == /\ w \in work /\ w.st \in {"s", "ok"} /\ cl < MaxConnLost     \* "ok": the answer was on its way
                /\ work' = (work \ {w}) \cup {[w EXCEPT !.st = "fail"]}
                /\ cl' = cl + 1
+               /\ ghost' = IF w.st = "s" THEN ghost \cup {<<w.m, w.d>>} ELSE ghost
                /\ UNCHANGED <<q, att, sif, gone, ctr, dead, sched, tos, hvars>>
+(* ... and the request it had given up on (its own timeout fired first) is served by the destination after all *)
+GhostEffect(m, d) == /\ Consume(d)
+                     /\ LET it == NextItem(d) IN
+                        /\ IF it = "A" /\ ~Filter THEN acc' = [acc EXCEPT ![m] = @ \cup {d}] ELSE UNCHANGED acc
+                        /\ IF Filter /\ it = "A" THEN unknown' = unknown + 1 ELSE UNCHANGED unknown
+                        /\ IF it = "R" /\ ~Filter THEN dfail' = [dfail EXCEPT ![m] = @ + 1] ELSE UNCHANGED dfail
+                        /\ IF it \in {"L", "D"} \/ (it = "R" /\ Filter) THEN ifail' = ifail + 1 ELSE UNCHANGED ifail
+                     /\ UNCHANGED <<q, att, sif, gone, work, ctr, dead, tos, cl, reqs, fins, ended>>
+GhostAnswer(g) == g \in ghost /\ ghost' = ghost \ {g} /\ GhostEffect(g[1], g[2])
 
 (* responder (nsq_to_nsq) / return from HandleMessage (nsq_to_http) *)
 RespondFin(w) == /\ w \in work /\ w.st = "ok"
                  /\ SendFin(w.m) /\ work' = work \ {w}
                  /\ dead' = dead \ {w.d}                            \* hostPoolResponse.Mark(nil)
-                 /\ UNCHANGED <<att, ctr, sched, tos, cl, acc, dfail, ifail, unknown, ended>>
+                 /\ UNCHANGED <<att, ctr, sched, tos, cl, ghost, acc, dfail, ifail, unknown, ended>>
 RespondReq(w) == /\ w \in work /\ w.st = "fail"
                  /\ SendReq(w.m) /\ work' = work \ {w}
                  /\ dead' = IF Mode = "rr" THEN dead ELSE dead \cup {w.d}   \* Mark(err)
-                 /\ UNCHANGED <<att, ctr, sched, tos, cl, acc, dfail, ifail, unknown, ended>>
+                 /\ UNCHANGED <<att, ctr, sched, tos, cl, ghost, acc, dfail, ifail, unknown, ended>>
 
 End == /\ ~ended /\ q = {} /\ work = {} /\ \A m \in Msgs : gone[m]
        /\ ended' = TRUE
@@ -194,7 +205,8 @@ End == /\ ~ended /\ q = {} /\ work = {} /\ \A m \in Msgs : gone[m]
 
 RelayStep == \E w \in work : \/ GiveUp(w) \/ FilterDrop(w) \/ RespondFin(w) \/ RespondReq(w)
                              \/ \E ch \in Choices : Send(w, ch) \/ SendFails(w, ch)
-EnvStep   == \E w \in work : Answer(w) \/ ConnLost(w)
+EnvStep   == \/ \E w \in work : Answer(w) \/ ConnLost(w)
+             \/ \E g \in ghost : GhostAnswer(g)
 \* (written out action by action so that TLC's coverage report is per action)
 Next == \/ \E m \in Msgs : Deliver(m)
         \/ \E m \in Msgs : SrcTimeout(m)
@@ -204,6 +216,7 @@ Next == \/ \E m \in Msgs : Deliver(m)
         \/ \E w \in work, ch \in Choices : SendFails(w, ch)
         \/ \E w \in work : Answer(w)
         \/ \E w \in work : ConnLost(w)
+        \/ \E g \in ghost : GhostAnswer(g)
         \/ \E w \in work : RespondFin(w)
         \/ \E w \in work : RespondReq(w)
         \/ End
